@@ -1448,7 +1448,12 @@ func c12Record(env *Env) {
 		// a sample sheet larger than the 128 KiB the format sniffer reads at first (576 PCRs with long names), in both
 		// file formats; the scenarios fall on samples declared anywhere in the file
 		comp2 := map[byte]byte{'a': 't', 'c': 'g', 'g': 'c', 't': 'a'}
-		for fi, format := range []string{"csv", "old"} {
+		// (every event carries its sheet: a few groups only, or the trace grows by 3 MB per group)
+		bigFormats := []string{"csv", "old"}
+		if si >= env.optInt("bigsheets", 4) {
+			bigFormats = nil
+		}
+		for fi, format := range bigFormats {
 			sh := c12RandSheet(r, 9000+fi, false)
 			sh.Mode, sh.Indel, sh.TagIndels = "strict", false, 0
 			sh.Markers = sh.Markers[:1]
